@@ -85,7 +85,7 @@ PROPS["C08"] = {
     "harness": "repl", "level": "exploration", "per_proc": 60, "proc_timeout": 900,
     "quick": {"runs": 30000, "budget_s": 300},
     "thorough": {"runs": 300000, "budget_s": 1700, "shrink_runs": 200, "shrink_timeout": 600},
-    "rule": "Each run: a leader node and a follower node, each a real WriteAheadLogManager on its own directory; the leader's partition replicates through its real local and remote replicators, the follower answers through the real storage RPC ReplicaHandler; unary calls and the bidirectional stream are simulated (1 ms latency per hop). 4-17 operations: leader appends of unique messages, waits, follower restart (clean / process death / death + log directory lost), follower offline/online with (duplicate) notifications, leader Sync+GC, leader restart (clean / death / death + an older image of its log restored = lost tail; also as a macro 'the leader loses exactly the last 1-2 messages the follower already has'); the follower's log append fails with an I/O error at tape-chosen calls; in addition the tape breaks streams before delivery, after the request was delivered (stale delivery by the dead stream's handler), fails stream creation and unary calls before/after they took effect. After the last fault: settle, then two more appends must reach the follower at the leader's positions within 120 simulated seconds. In half of the runs the follower's stream handlers stall for 1-12 simulated ms at tape-chosen function entries of the replica / queue packages and lock acquisitions (slow disk), so that the handler of a broken stream and its successor overlap inside ReplicaLog.",
+    "rule": "Each run: a leader node and a follower node, each a real WriteAheadLogManager on its own directory; the leader's partition replicates through its real local and remote replicators, the follower answers through the real storage RPC ReplicaHandler; unary calls and the bidirectional stream are simulated (1 ms latency per hop). 4-17 operations: leader appends of unique messages, waits, follower restart (clean / process death / death + log directory lost), follower offline/online with (duplicate) notifications, leader Sync+GC, leader restart (clean / death / death + an older image of its log restored = lost tail; also as a macro 'the leader loses exactly the last 1-2 messages the follower already has'); the follower's log append fails with an I/O error at tape-chosen calls; in addition the tape breaks streams before delivery, after the request was delivered (stale delivery by the dead stream's handler), fails stream creation and unary calls before/after they took effect. After the last fault: settle, then two more appends must reach the follower at the leader's positions within 120 simulated seconds. In half of the runs the follower's stream handlers stall for 1-12 simulated ms at tape-chosen function entries of the replica / queue packages and lock acquisitions (slow disk), so that the handler of a broken stream and its successor overlap inside ReplicaLog. The acknowledgement monitor is also position by position: every position the leader newly treats as acknowledged must have been appended by a handler of the follower at some time (the follower's counter alone can be moved without data by the handshake's Reset).",
     "fault_kinds": ["follower-put-fails", "break-before-delivery", "break-after-request", "stale-delivery", "stream-open-fail", "unary-fail-before", "unary-fail-after", "follower-restart-0", "follower-restart-1", "follower-log-lost", "follower-offline", "duplicate-online-notification", "leader-gc", "leader-restart-0", "leader-restart-1", "leader-tail-lost", "follower-stall", "follower-flap"],
     "real": ["replica (wal manager, wal, partition, local replicator, remote replicator incl. handshake)", "app/storage/rpc ReplicaHandler", "pkg/queue (fan-out queue, consumer groups, pages on tmpfs)"],
     "stub": ["tsdb.Engine / Shard / DataFamily (interfaces; replication of a log never touches tsdb data)", "coordinator/storage StateManager (live-node table + notifications driven by the plan)", "rpc.ClientStreamFactory and the gRPC streams (simnet: ordered, reliable until broken)"],
@@ -141,7 +141,7 @@ PROPS["C11"] = {
     "harness": "node", "level": "exploration", "per_proc": 60, "proc_timeout": 900,
     "quick": {"runs": 25000, "budget_s": 300},
     "thorough": {"runs": 500000, "budget_s": 1700, "shrink_runs": 200, "shrink_timeout": 600},
-    "rule": "Each run: as C10 plus engine close+reopen; in half of the runs a write may carry only the first one or two fields, so that files with a single-field block, files with other field sets and memory meet in queries and compactions; otherwise points carry a random subset of five fields (sum, min, max, last, first), timestamps in the first 10 minutes of one or two hours (one or two data families per shard, sharing the shard's time series index), slot-aligned or not, duplicates and out-of-order slots inside and outside the 64-slot write window. Queries select one field - a third of those on the sum field through sum(f), min(f) or max(f) - over a random or whole-hour time range (or spanning both hours), optional tag condition (depth <= 1), group by none / host / id / id,host, interval none / 20 s / 30 s / 60 s. Oracle: a ledger of every accepted point; the reference keeps points whose 10 s storage slot lies in the truncated range, buckets them from the truncated range start, combines one bucket by the field's aggregate (sum/min/max exactly; last/first must be one of the written values) - compared group by group and slot by slot, including 'no value where nothing was written'. A group without any value of the selected field may be returned (series are selected before the field is read).",
+    "rule": "Each run: as C10 plus engine close+reopen; in half of the runs a write may carry only the first one or two fields, so that files with a single-field block, files with other field sets and memory meet in queries and compactions; otherwise points carry a random subset of five fields (sum, min, max, last, first), timestamps in the first 10 minutes of one or two hours (one or two data families per shard, sharing the shard's time series index), slot-aligned or not, duplicates and out-of-order slots inside and outside the 64-slot write window. Queries select one field - a third of those on the sum field through sum(f), min(f) or max(f) - over a random or whole-hour time range (or spanning both hours), optional tag condition (depth <= 1), group by none / host / id / id,host, interval none / 20 s / 30 s / 60 s. Oracle: a ledger of every accepted point; the reference keeps points whose 10 s storage slot lies in the truncated range, buckets them from the truncated range start, combines one bucket by the field's aggregate (sum/min/max exactly; last/first must be one of the written values) - compared group by group and slot by slot, including 'no value where nothing was written'. A group without any value of the selected field may be returned (series are selected before the field is read). In half of the runs a statement may select two columns (two fields, or two functions of the sum field - each judged on its own against the model), and a write may carry exactly one later field of the metric (a flushed block whose only field is not the first).",
     "fault_kinds": ["flush", "compact", "close-reopen"],
     "real": NODE_REAL, "stub": NODE_STUB,
     "assumptions": COMMON_ASSUME + ["values are integers so float sums are exact in any order", "histogram fields are covered at file level by C03, not here", "one or two families (hours) per run"],
@@ -154,8 +154,8 @@ PROPS["C12"] = {
     "harness": "node", "level": "exploration", "per_proc": 40, "proc_timeout": 900,
     "quick": {"runs": 12000, "budget_s": 300},
     "thorough": {"runs": 300000, "budget_s": 1700, "shrink_runs": 150, "shrink_timeout": 600},
-    "rule": "Each run: one real engine holding the same generated points twice - database A with one shard, database K with 2-4 shards over which the series are spread; 4-9 operations out of write (to both), flush sequence (both), query. Every query (generator of C11: field, time range, interval, optional tag condition, group by none/host/id/id,host) is executed under 3-5 physical layouts: A on one leaf; K with all shards on one leaf; K with the shards partitioned over 2..k leaf nodes (leaves whose shards hold no matching data occur); the partitioned layout plus one more leaf node that has never seen the metric (it answers from a database that never received a point); and for group-by queries the partitioned layout and A through an intermediate node (real IntermediateTaskProcessor) between root and leaves. Each response travels in its own task with a tape-chosen transit time (0/0/1/3 ms), so arrival order and the interleaving of arrivals with leaves that are still working are seeded. Oracle: every answer must equal the reference model of C11, all answers must have the same outcome (error or not) and equal groups/slots/values (values of last/first fields only when one group is one series).",
-    "fault_kinds": ["flush"],
+    "rule": "Each run: one real engine holding the same generated points twice - database A with one shard, database K with 2-4 shards over which the series are spread; 4-9 operations out of write (to both), flush sequence (both), query. Every query (generator of C11: field, time range, interval, optional tag condition, group by none/host/id/id,host) is executed under 3-5 physical layouts: A on one leaf; K with all shards on one leaf; K with the shards partitioned over 2..k leaf nodes (leaves whose shards hold no matching data occur); the partitioned layout plus one more leaf node that has never seen the metric (it answers from a database that never received a point); and for group-by queries the partitioned layout and A through an intermediate node (real IntermediateTaskProcessor) between root and leaves. Each response travels in its own task with a tape-chosen transit time (0/0/1/3 ms), so arrival order and the interleaving of arrivals with leaves that are still working are seeded. Oracle: every answer must equal the reference model of C11, all answers must have the same outcome (error or not) and equal groups/slots/values (values of last/first fields only when one group is one series). In half of the runs the rows of a write reach their shard and family through lindb's broker-side batch code (routing hash -> shard, batch iterators -> family) instead of the harness's own assignment; statements may select two columns as in C11; and - half of the runs - the partition is asked once more with an extra leaf whose task fails with a real error: the statement must fail whatever the arrival order (C12/leaf-error-lost).",
+    "fault_kinds": ["flush", "failing-leaf"],
     "real": NODE_REAL, "stub": NODE_STUB,
     "assumptions": COMMON_ASSUME + ["series are spread over shards by a seeded assignment (a superset of what the routing hash of series/metric/row_broker.go can produce)", "leaf 'nodes' are several real leaf task processors over the one engine, each given its own shard ids, as flow/node_choose.go would assign them"],
     "design_ref": "5/C12",
